@@ -127,9 +127,10 @@ assume func sort.Stable(data sort.Interface)
 -- Sort hands back the entries of the map, each key with ITS value. Proved: the loop collects entries pairwise; Swap
 -- keeps pairs (its contract). Assumed: sort.Stable reaches the data through Len, Less and Swap only, so what holds
 -- before it and is preserved by Swap holds after it (the assume below); that it orders by Less.
+-- Sort itself does not panic: compare's "bad type" panic is for kinds that cannot be (part of) a map key, and the
+-- comparisons are made by sort.Stable, whose assumed contract has no panic
 func Sort(mapValue reflect.Value) (r *SortedMap)
   modifies alloc, memU, gsm, gik, giv
-  may-panic
   ghost gsm = mapValue at entry
   loop 1 invariant gsm == mapValue && len(key) == len(value) && ref(key) != ref(value) && (forall j :: 0 <= j && j < len(key) ==> ment(mapValue, key[j], value[j]))
   assert [C05,C06,C12,C17] Pairs(sorted) before "sort.Stable(sorted)"
